@@ -345,8 +345,6 @@ class Folder(object):
             fv = self._e(f, env, at)
             if isinstance(fv, Lam):
                 args = [self._e(a, env, at) for a in e.args]
-                if any(a is U for a in args):
-                    return U
                 return self._apply_lambda(fv, args, at)
             if isinstance(fv, NTClass):
                 return self._mk_nt(fv, e, env, at)
@@ -387,9 +385,10 @@ class Folder(object):
                     return NTClass(n, flds)
                 return U
             if hasattr(t, "node") and isinstance(t.node, ast.FunctionDef):
+                # unknown arguments are passed through as UNKNOWN: the result may still fold (e.g. key sets)
                 args = [self._e(a, env, at) for a in e.args]
                 kw = {k.arg: self._e(k.value, env, at) for k in e.keywords if k.arg}
-                if any(a is U for a in args) or any(v is U for v in kw.values()) or any(k.arg is None for k in e.keywords):
+                if any(k.arg is None for k in e.keywords) or any(isinstance(a, ast.Starred) for a in e.args):
                     return U
                 return self._apply_fn(t, args, kw)
         # namedtuple class bound at module level
